@@ -75,9 +75,11 @@ def handleLp (args : List Val) : Option String := do
     | some i => chk i itf ito (fun x => x.length == U.n && chkResidual U ires iulp x)
   pure (Val.arr [model, truth, lpC, ipC]).render
 
-/-! request `["milp", c, A, b, ints, minimize, eps, tolObj, maxBox, impls]`
+/-! request `["milp", c, A, b, ints, minimize, eps, tolObj, maxBox, impls, points]`
   impls : list of `[status, x | null, obj | null, sols]` (results of solve_milp under several configurations)
-reply `[relax, oracle, checks]`
+  points : vectors on which the harness also called `solvor.milp._is_feasible` itself
+reply `[relax, oracle, checks, filter]`
+  filter = per point `[isFeasible at 0.999·eps, at eps, at 1.001·eps, rejecting clause at eps]` (the proved mirror)
   relax  = `[verdict, certOk]`                 exact simplex on the LP relaxation, certificate-checked
   oracle = `[kind, value | null, point | null, boxSize]`
            kind ∈ OPTIMAL / INFEASIBLE / UNBOUNDED (all certified: `oracleOk` or the relaxation's Farkas
@@ -86,10 +88,11 @@ reply `[relax, oracle, checks]`
   checks = per impl result `[isFeasible x, |c·x−obj| ≤ tolObj, [isFeasible s for s in sols]]` (`null` when no x)
 -/
 def handleMilp (args : List Val) : Option String := do
-  let [c, A, b, ints, mn, eps, tolObj, maxBox, impls] := args | none
+  let [c, A, b, ints, mn, eps, tolObj, maxBox, impls, points] := args | none
   let c ← c.toRats?; let A ← A.toRatss?; let b ← b.toRats?; let ints ← ints.toNats?
   let mn ← mn.toBool?; let eps ← eps.toRat?; let tolObj ← tolObj.toRat?; let maxBox ← maxBox.toNat?
   let impls ← impls.toArr?
+  let points ← points.toRatss?
   -- hypotheses of `milpOracle_correct`: as many rows as right-hand sides, integer indices in range
   if A.length != b.length || ints.any (fun j => j ≥ c.length) then none
   let P := mkLP c A b mn
@@ -122,7 +125,11 @@ def handleMilp (args : List Val) : Option String := do
       | some x =>
         let objOk := match o with | some ob => chkObjAt U tolObj x ob | none => false
         Val.arr [.bool (feas x), .bool objOk, .arr (sols.map fun s => .bool (feas s))]
-  pure (Val.arr [relax, oracle, .arr checks]).render
+  let filt := points.map fun x =>
+    let f (e : Rat) : Bool := x.length == U.n && isFeasible U ints e x
+    Val.arr [.bool (f (eps * 999 / 1000)), .bool (f eps), .bool (f (eps * 1001 / 1000)),
+      .int (feasClause U ints eps x)]
+  pure (Val.arr [relax, oracle, .arr checks, .arr filt]).render
 
 /-! request `["bnb", c, A, b, ints, minimize, eps, maxIter, maxNodes, gapTol, solutionLimit, warm | null]`
   (`ints` ascending = CPython's iteration order of a set of small non-negative ints)
